@@ -1,10 +1,10 @@
 package e2e
 
 import (
-	"time"
 	"fmt"
 	"sort"
 	"strings"
+	"time"
 
 	"verifharness/vh"
 )
@@ -103,7 +103,7 @@ func CheckC01(o *Outcome) *vh.Finding {
 				}
 			}
 			sort.Strings(missing)
-			if len(missing) > 0 && !(o.Sc.TinyQuota && droppedSoFar[i] > 0) {
+			if len(missing) > 0 && !(o.overflowPossible() && droppedSoFar[i] > 0) {
 				return vh.Fail("e2e:record-lost", "after stop %d, output %d: %d records that the agent had read are neither acknowledged by the upstream nor in the queue directory (dropped_chunks_total so far: %v): %v\n%s", so.Gen, i, len(missing), droppedSoFar[i], missing[:min(8, len(missing))], o.describe())
 			}
 			// no chunk file disappears before its ACK
@@ -111,7 +111,7 @@ func CheckC01(o *Outcome) *vh.Finding {
 				for name := range prevDisk[i] {
 					if _, still := so.Disk[i][name]; !still {
 						id := name[strings.LastIndexByte(name, '/')+1:]
-						if so.AckedChunks[i][id] == 0 && !(o.Sc.TinyQuota && droppedSoFar[i] > 0) {
+						if so.AckedChunks[i][id] == 0 && !(o.overflowPossible() && droppedSoFar[i] > 0) {
 							return vh.Fail("e2e:file-removed-before-ack", "output %d: chunk file %s was on disk after the previous stop, is gone after stop %d, and the upstream never acknowledged it\n%s", i, name, so.Gen, o.describe())
 						}
 					}
@@ -121,6 +121,81 @@ func CheckC01(o *Outcome) *vh.Finding {
 		prevDisk = so.Disk
 	}
 	return nil
+}
+
+// overflowPossible: may the disk quota have been reached in this scenario, so that counted discards are legitimate?
+// With the ample quota: never. With the tiny quota: always. With a quota of a few dozen chunks (drain-cycles family):
+// not if the upstream's log shows that every burst had been acknowledged completely before the client queued the first
+// record of the next burst - the queue directory was empty then and a single burst is smaller than the quota. If a
+// timing slip prevents that proof, discards are tolerated as under the tiny quota.
+func (o *Outcome) overflowPossible() bool {
+	if o.Sc.TinyQuota {
+		return true
+	}
+	if o.Sc.QuotaChunks == 0 {
+		return false
+	}
+	return !o.DrainedBetweenBursts()
+}
+
+// DrainedBetweenBursts: drain-cycles family, see overflowPossible.
+func (o *Outcome) DrainedBetweenBursts() bool {
+	if o.Sc.Family != "drain-cycles" || len(o.Servers) == 0 {
+		return false
+	}
+	ackAt := map[string]time.Time{}
+	for _, m := range o.Servers[0] {
+		if !m.Acked {
+			continue
+		}
+		for _, ev := range m.Msg.Events {
+			st := stampOf(ev.Fields["log"])
+			if t, ok := ackAt[st]; !ok || m.AckAt.Before(t) {
+				ackAt[st] = m.AckAt
+			}
+		}
+	}
+	// bursts of generation 0, connection 0 by sequence number
+	recs := o.Sc.Gens[0].Conns[0].Recs
+	burstOf := make([]int, len(recs))
+	b := 0
+	for i, r := range recs {
+		if i > 0 && r.Pause > 0 {
+			b++
+		}
+		burstOf[i] = b
+	}
+	lastAck := make([]time.Time, b+1)
+	firstQueued := make([]time.Time, b+1)
+	seen := 0
+	for _, e := range o.Expected {
+		if e.Gen != 0 || e.Conn != 0 || e.Seq >= len(recs) {
+			continue
+		}
+		seen++
+		bi := burstOf[e.Seq]
+		if firstQueued[bi].IsZero() || e.QueuedAt.Before(firstQueued[bi]) {
+			firstQueued[bi] = e.QueuedAt
+		}
+		if bi < b {
+			t, ok := ackAt[e.Stamp]
+			if !ok {
+				return false // a record of an earlier burst was never acknowledged in time
+			}
+			if t.After(lastAck[bi]) {
+				lastAck[bi] = t
+			}
+		}
+	}
+	if seen != len(recs) {
+		return false
+	}
+	for bi := 0; bi < b; bi++ {
+		if firstQueued[bi+1].IsZero() || !lastAck[bi].Before(firstQueued[bi+1]) {
+			return false
+		}
+	}
+	return true
 }
 
 func pipelineOf(o *Outcome, ev *vh.ForwardEvent) string {
